@@ -62,7 +62,7 @@ def main():
         import subprocess
         import tempfile
         probes = {}
-        for mode in ("rename", "inline", "introduce"):
+        for mode in ("rename", "inline", "introduce", "flip"):
             dest = tempfile.mkdtemp(prefix="andes_verif_benign_%s_" % mode)
             try:
                 t = subprocess.run([sys.executable, os.path.join(HERE, "tools", "benign_transform.py"), mode, dest],
